@@ -286,12 +286,6 @@ def b_return_channel(ctx):
     ok = any(isinstance(c, ast.Call) and src(c.func) == "SpecOp" and any(k.arg == "return_var_name" and src(k.value) == "element.return_var_name" for k in c.keywords)
              and any(k.arg == "op" and src(k.value) == "'match'" for k in c.keywords) for c in ast.walk(ae))
     ctx.check("C08.b.return-channel", EXP, "_expand_await_element", "return variable forwarded", ok, "the awaited flow's Finished match carries the caller's return variable name", line=ae.lineno)
-    # the matcher ignores K2 when comparing arguments (a return value must not prevent the match)
-    am = find_function(sm, "_compute_arguments_dict_matching_score")
-    filt = [n for n in ast.walk(am) if isinstance(n, ast.Assign) and src(n.targets[0]) == "argument_filter" and isinstance(n.value, ast.List)]
-    ok = bool(filt) and k2 in [e.value for e in filt[0].value.elts if isinstance(e, ast.Constant)]
-    ctx.check("C08.b.return-channel", SM, "_compute_arguments_dict_matching_score", "return value not matched", ok,
-              "the published argument %r is excluded from event matching" % k2, line=am.lineno)
 
 
 def c_context(ctx):
